@@ -1,7 +1,7 @@
-(* What url_classify_u = UValid says about the string (the reading  scheme "://" rawhost rawpath ["?" query]
-   ["#" fragment]  with host and path percent-decoded), and the consequence for IRI.Equals: on IRIs that are valid
-   UTF-8 the string fast path (strings.EqualFold after cutting fragment and scheme) implies the URL comparison of
-   scheme, host and cleaned path, and EqualFold-equal raw queries.  Model: Model/UrlU.v, Model/IriEqU.v. *)
+(* What url_classify_u = UValid says about the string (the reading  scheme "://" [userinfo "@"] rawhost rawpath
+   ["?" query] ["#" fragment]  with host and path percent-decoded), and the consequence for IRI.Equals: for ALL byte
+   strings the string fast path (equalFold after cutting fragment and scheme) implies the URL comparison of scheme,
+   host and cleaned path, and fold-equal raw queries.  Model: Model/UrlU.v, Model/IriEqU.v. *)
 From AP.Model Require Import Prelude Bytes Url IriEq IriNf Vocab Pred CollIri Utf8 FoldTab Fold UrlU IriEqU.
 From AP.Proofs Require Import NlvP LowerP IriEqP SortP IriGenP IriNfP IriXP CollIriP Utf8P FoldP DecodeUP CleanUP.
 
@@ -43,12 +43,92 @@ Proof.
     destruct (Byte.eqb c colon); [discriminate|inversion H; subst; congruence].
 Qed.
 
+(* ================================================================ url.parseAuthority, url.parseHost *)
+Lemma cut_last_some c s a b : cut_last c s = Some (a, b) -> s = a ++ c :: b /\ notin c b = true.
+Proof.
+  revert a b. induction s as [|x r IH]; intros a b H; [discriminate|]. cbn [cut_last] in H.
+  destruct (cut_last c r) as [[a' b']|] eqn:E.
+  - inversion H; subst. destruct (IH a' b eq_refl) as [E1 E2]. split; [rewrite E1; reflexivity|exact E2].
+  - destruct (Byte.eqb x c) eqn:Ex; [|discriminate]. inversion H; subst. apply beqb_eq in Ex. subst x.
+    split; [reflexivity|]. clear IH H. induction b as [|y b IH]; [reflexivity|]. cbn [cut_last] in E.
+    destruct (cut_last c b) as [[? ?]|]; [discriminate|]. destruct (Byte.eqb y c) eqn:Ey; [discriminate|].
+    simpl. rewrite Ey. apply IH. reflexivity.
+Qed.
+
+Lemma cut_last_none c s : notin c s = true -> cut_last c s = None.
+Proof.
+  induction s as [|x r IH]; [reflexivity|]. simpl. rewrite andb_true_iff, negb_true_iff. intros [Hx Hr].
+  rewrite (IH Hr), Hx. reflexivity.
+Qed.
+
+Lemma notin_existsb c s : existsb (fun b => Byte.eqb b c) s = false -> notin c s = true.
+Proof.
+  induction s as [|x r IH]; [reflexivity|]. simpl. rewrite orb_false_iff. intros [Hx Hr]. rewrite Hx, (IH Hr). reflexivity.
+Qed.
+
+(* whatever parseHost accepts, URL.Host is the percent-decoding of the raw host (brackets, zone and port included) *)
+Lemma parse_host_decode rh h : parse_host rh = Some h -> pct_decode rh = Some h.
+Proof.
+  unfold parse_host. destruct (is_prefix [lbrack] rh).
+  - destruct (cut_last rbrack rh) as [[inside after]|] eqn:CL; [|discriminate].
+    destruct (valid_optional_port after); [|discriminate].
+    destruct (index (B "%25") inside) as [z|] eqn:Ez.
+    + destruct (host_bytes_ok (firstn z inside) && zone_bytes_ok (skipn z inside) && host_bytes_ok (rbrack :: after)); [|discriminate].
+      unfold decode3. destruct (pct_decode (firstn z inside)) as [x|] eqn:D1; [|discriminate].
+      destruct (pct_decode (skipn z inside)) as [y|] eqn:D2; [|discriminate].
+      destruct (pct_decode (rbrack :: after)) as [w|] eqn:D3; [|discriminate].
+      intros H. inversion H; subst h. destruct (cut_last_some _ _ _ _ CL) as [E _]. rewrite E.
+      rewrite <- (firstn_skipn z inside) at 1. rewrite <- app_assoc.
+      apply pct_decode_app; [exact D1|]. apply pct_decode_app; assumption.
+    + destruct (host_bytes_ok rh); [tauto|discriminate].
+  - destruct (last_colon_ok rh && host_bytes_ok rh); [tauto|discriminate].
+Qed.
+
+(* the authority: nothing or a userinfo ending in "@" (the LAST "@" of the authority), then the raw host *)
+Definition uprefix (up : bytes) : Prop := up = [] \/ exists ui, up = ui ++ [atsign].
+
+Lemma parse_authority_struct au user h : parse_authority au = Some (user, h) ->
+  exists up rh, au = up ++ rh /\ uprefix up /\ notin atsign rh = true /\ parse_host rh = Some h /\ pct_decode rh = Some h.
+Proof.
+  unfold parse_authority. destruct (cut_last atsign au) as [[ui hp]|] eqn:CL.
+  - destruct (cut_last_some _ _ _ _ CL) as [E N]. destruct (parse_host hp) as [h'|] eqn:PH; [|discriminate].
+    destruct (parse_userinfo ui); [|discriminate]. intros H. inversion H; subst.
+    exists (ui ++ [atsign]), hp. split; [rewrite <- app_assoc; reflexivity|]. split; [right; exists ui; reflexivity|].
+    split; [exact N|]. split; [exact PH|apply parse_host_decode; exact PH].
+  - destruct (parse_host au) as [h'|] eqn:PH; [|discriminate]. intros H. inversion H; subst.
+    exists [], au. split; [reflexivity|]. split; [left; reflexivity|]. split; [|split; [exact PH|apply parse_host_decode; exact PH]].
+    clear -CL. induction au as [|y b IH]; [reflexivity|]. cbn [cut_last] in CL.
+    destruct (cut_last atsign b) as [[? ?]|]; [discriminate|]. destruct (Byte.eqb y atsign) eqn:Ey; [discriminate|].
+    simpl. rewrite Ey. apply IH. reflexivity.
+Qed.
+
+(* conversely: a userinfo url.validUserinfo accepts and whose escapes are well formed, in front of a host without "@" *)
+Definition userinfo_ok (ui : bytes) : bool := match parse_userinfo ui with Some _ => true | None => false end.
+
+Lemma parse_authority_user ui rh h : userinfo_ok ui = true -> notin atsign rh = true -> parse_host rh = Some h ->
+  exists user, parse_authority (ui ++ atsign :: rh) = Some (Some user, h).
+Proof.
+  intros U N PH. unfold parse_authority.
+  assert (cut_last atsign (ui ++ atsign :: rh) = Some (ui, rh)) as ->.
+  { clear U. induction ui as [|x r IH]; simpl.
+    - rewrite (cut_last_none _ _ N). reflexivity.
+    - rewrite IH. reflexivity. }
+  rewrite PH. unfold userinfo_ok in U. destruct (parse_userinfo ui) as [up|]; [|discriminate]. exists up. reflexivity.
+Qed.
+
+Lemma parse_authority_plain rh h : notin atsign rh = true -> parse_host rh = Some h -> parse_authority rh = Some (None, h).
+Proof. intros N PH. unfold parse_authority. rewrite (cut_last_none _ _ N), PH. reflexivity. Qed.
+
 (* ================================================================ the reading of a valid URL *)
-Record ustruct (s sch rh rp : bytes) (qo fo : option bytes) : Prop := {
-  us_string : s = (sch ++ B "://" ++ rh ++ rp ++ tail_of qmark qo) ++ tail_of hash fo;
-  us_nohash : notin hash (sch ++ B "://" ++ rh ++ rp ++ tail_of qmark qo) = true;
+Record ustruct (s sch up rh rp : bytes) (qo fo : option bytes) : Prop := {
+  us_string : s = (sch ++ B "://" ++ up ++ rh ++ rp ++ tail_of qmark qo) ++ tail_of hash fo;
+  us_nohash : notin hash (sch ++ B "://" ++ up ++ rh ++ rp ++ tail_of qmark qo) = true;
   us_scheme : forallb is_scheme_char sch = true;
   us_scheme_ne : sch <> [];
+  us_user : uprefix up;
+  us_user_noslash : notin slash up = true;
+  us_user_noq : notin qmark up = true;
+  us_host_noat : notin atsign rh = true;
   us_host_noslash : notin slash rh = true;
   us_host_noq : notin qmark rh = true;
   us_path_root : rp = [] \/ exists p, rp = slash :: p;
@@ -66,18 +146,27 @@ Proof. rewrite notin_app, andb_true_iff. tauto. Qed.
 Lemma is_prefix_2 a b s : is_prefix [a; b] s = true -> s = a :: b :: skipn 2 s.
 Proof. intros H. apply is_prefix_true in H. exact H. Qed.
 
-(* what the theorems need of a raw host: parseHost accepts it as it is (no userinfo, no IP literal) *)
+(* a raw host of the plain kind: no userinfo before it, no IP literal; parseHost accepts it as it is *)
 Definition rawhost_ok (rh : bytes) : bool :=
   negb (existsb (fun b => Byte.eqb b atsign) rh) && negb (is_prefix [lbrack] rh) && last_colon_ok rh && host_bytes_ok rh.
 
+Lemma rawhost_ok_parse rh h : rawhost_ok rh = true -> pct_decode rh = Some h ->
+  notin atsign rh = true /\ parse_host rh = Some h.
+Proof.
+  unfold rawhost_ok. rewrite !andb_true_iff, !negb_true_iff. intros [[[H1 H2] H3] H4] D.
+  split; [apply notin_existsb; exact H1|]. unfold parse_host. rewrite H2, H3, H4. exact D.
+Qed.
+
 Lemma core_valid_struct via nofrag u0 :
   url_parse_core via nofrag = UUrl u0 -> nonempty (uu_scheme u0) = true -> nonempty (uu_host u0) = true ->
-  exists sch rh rp qo,
-    nofrag = sch ++ B "://" ++ rh ++ rp ++ tail_of qmark qo /\
-    forallb is_scheme_char sch = true /\ sch <> [] /\ notin slash rh = true /\ notin qmark rh = true /\
+  exists sch up rh rp qo,
+    nofrag = sch ++ B "://" ++ up ++ rh ++ rp ++ tail_of qmark qo /\
+    forallb is_scheme_char sch = true /\ sch <> [] /\
+    uprefix up /\ notin slash up = true /\ notin qmark up = true /\ notin atsign rh = true /\
+    notin slash rh = true /\ notin qmark rh = true /\
     (rp = [] \/ exists p, rp = slash :: p) /\ notin qmark rp = true /\
     uu_scheme u0 = lower sch /\ pct_decode rh = Some (uu_host u0) /\ pct_decode rp = Some (uu_path u0) /\ uu_query u0 = qo /\
-    existsb is_ctl nofrag = false /\ rawhost_ok rh = true /\
+    existsb is_ctl nofrag = false /\ parse_host rh = Some (uu_host u0) /\
     match sch with c0 :: _ => is_alpha c0 = true | [] => False end.
 Proof.
   unfold url_parse_core. destruct (existsb is_ctl nofrag) eqn:Ctl; [discriminate|].
@@ -102,96 +191,101 @@ Proof.
   2:{ intros H _ Hh. unfold set_path in H. destruct (pct_decode rest); [|discriminate]. inversion H; subst u0. discriminate. }
   destruct (IriNfP.cut_byte_spec slash (skipn 2 rest)) as [Nsl Esl].
   destruct (cut_byte slash (skipn 2 rest)) as [au pr]. cbn [fst snd] in Nsl, Esl.
-  destruct (existsb (fun b => Byte.eqb b atsign) au) eqn:At; [discriminate|]. destruct (is_prefix [lbrack] au) eqn:Lb; [discriminate|].
-  destruct (parse_host au) as [h|] eqn:PH; [|discriminate].
-  unfold set_path. cbn [uu_scheme uu_opaque uu_host uu_query uu_frag uu_rawfrag uu_omit].
+  destruct (parse_authority au) as [[user h]|] eqn:PA; [|discriminate].
+  unfold set_path. cbn [uu_scheme uu_opaque uu_user uu_host uu_query uu_frag uu_rawfrag uu_omit].
   match goal with |- context [pct_decode ?x] => destruct (pct_decode x) as [d|] eqn:PD end; [|discriminate].
   intros H _ _. inversion H; subst u0; clear H. cbn [uu_scheme uu_host uu_path uu_query].
-  exists sch0, au, (tail_of slash pr), query.
+  destruct (parse_authority_struct au user h PA) as [up [rh [Eau [Hup [Nat [PH Dh]]]]]].
+  exists sch0, up, rh, (tail_of slash pr), query.
   pose proof (is_prefix_2 _ _ _ R2) as Er. rewrite Esl in Er.
   assert (Nq2 : notin qmark (au ++ tail_of slash pr) = true).
   { rewrite Er in Nq. simpl in Nq. exact Nq. }
-  repeat split.
-  - rewrite Es, Eq, Er. simpl. rewrite <- !app_assoc. reflexivity.
-  - exact Hsch.
-  - exact Hne.
-  - exact Nsl.
-  - apply (notin_app_l _ _ _ Nq2).
-  - destruct pr as [p0|]; [right; exists p0; reflexivity|left; reflexivity].
-  - apply (notin_app_r _ _ _ Nq2).
-  - unfold parse_host in PH. destruct (last_colon_ok au && host_bytes_ok au); [exact PH|discriminate].
-  - destruct pr; exact PD.
-  - unfold rawhost_ok. rewrite At, Lb. unfold parse_host in PH. cbn [negb andb]. destruct (last_colon_ok au && host_bytes_ok au); [reflexivity|discriminate].
-  - exact (get_scheme_alpha _ _ _ G Hne).
+  rewrite Eau in Nsl, Nq2, Er.
+  split; [rewrite Es, Eq, Er; simpl; rewrite <- !app_assoc; reflexivity|].
+  split; [exact Hsch|]. split; [exact Hne|]. split; [exact Hup|].
+  split; [apply (notin_app_l _ _ _ Nsl)|]. split; [apply (notin_app_l _ _ _ (notin_app_l _ _ _ Nq2))|].
+  split; [exact Nat|]. split; [apply (notin_app_r _ _ _ Nsl)|]. split; [apply (notin_app_r _ _ _ (notin_app_l _ _ _ Nq2))|].
+  split; [destruct pr as [p0|]; [right; exists p0; reflexivity|left; reflexivity]|].
+  split; [apply (notin_app_r _ _ _ Nq2)|]. split; [reflexivity|]. split; [exact Dh|].
+  split; [destruct pr; exact PD|]. split; [reflexivity|]. split; [reflexivity|]. split; [exact PH|].
+  exact (get_scheme_alpha _ _ _ G Hne).
 Qed.
 
-Lemma classify_u_struct s u : url_classify_u s = UValid u ->
-  exists sch rh rp qo fo, ustruct s sch rh rp qo fo /\
-    u_scheme u = lower sch /\ pct_decode rh = Some (u_host u) /\ pct_decode rp = Some (u_path u) /\ u_query u = opt_or_nil qo.
+Definition frag_fields (fo : option bytes) : option (bytes * bytes) :=
+  match fo with
+  | None | Some [] => Some ([], [])
+  | Some f => match pct_decode f with
+              | Some d => Some (d, if bytes_eqb f (frag_escape d) then [] else f)
+              | None => None
+              end
+  end.
+
+Lemma core_frag_nil via s u0 : url_parse_core via s = UUrl u0 -> uu_frag u0 = [].
+Proof.
+  unfold url_parse_core, set_path. intros H.
+  repeat match type of H with
+         | (if ?c then _ else _) = _ => destruct c
+         | (let '(_, _) := ?c in _) = _ => destruct c
+         | match ?c with _ => _ end = _ => destruct c
+         end; try discriminate; inversion H; subst u0; reflexivity.
+Qed.
+
+(* everything url.Parse established on the way *)
+Lemma classify_u_full s u : url_classify_u s = UValid u ->
+  exists sch up rh rp qo fo, ustruct s sch up rh rp qo fo /\
+    u_scheme u = lower sch /\ pct_decode rh = Some (u_host u) /\ pct_decode rp = Some (u_path u) /\ u_query u = opt_or_nil qo /\
+    existsb is_ctl (sch ++ B "://" ++ up ++ rh ++ rp ++ tail_of qmark qo) = false /\ parse_host rh = Some (u_host u) /\
+    match sch with c0 :: _ => is_alpha c0 = true | [] => False end /\
+    (exists rf, frag_fields fo = Some (u_frag u, rf)) /\ u_host u <> [].
 Proof.
   unfold url_classify_u. destruct s as [|c0 s0]; [discriminate|]. remember (c0 :: s0) as s eqn:Hs. clear Hs.
   unfold url_parse_u. destruct (IriNfP.cut_byte_spec hash s) as [Nh Eh]. destruct (cut_byte hash s) as [nofrag frag]. cbn [fst snd] in Nh, Eh.
   destruct (url_parse_core false nofrag) as [u0| |] eqn:PC; try discriminate.
   assert (K : forall uu, uu_scheme uu = uu_scheme u0 -> uu_host uu = uu_host u0 -> uu_path uu = uu_path u0 -> uu_query uu = uu_query u0 ->
+    (exists rf, frag_fields frag = Some (uu_frag uu, rf)) ->
     (if nonempty (uu_scheme uu) && nonempty (uu_host uu)
      then UValid {| u_scheme := uu_scheme uu; u_host := uu_host uu; u_path := uu_path uu;
                     u_query := match uu_query uu with Some q => q | None => [] end; u_frag := uu_frag uu |}
      else UFallback) = UValid u ->
-    exists sch rh rp qo fo, ustruct s sch rh rp qo fo /\
-      u_scheme u = lower sch /\ pct_decode rh = Some (u_host u) /\ pct_decode rp = Some (u_path u) /\ u_query u = opt_or_nil qo).
-  { intros uu E1 E2 E3 E4. rewrite E1, E2, E3, E4.
+    exists sch up rh rp qo fo, ustruct s sch up rh rp qo fo /\
+      u_scheme u = lower sch /\ pct_decode rh = Some (u_host u) /\ pct_decode rp = Some (u_path u) /\ u_query u = opt_or_nil qo /\
+      existsb is_ctl (sch ++ B "://" ++ up ++ rh ++ rp ++ tail_of qmark qo) = false /\ parse_host rh = Some (u_host u) /\
+      match sch with c1 :: _ => is_alpha c1 = true | [] => False end /\
+      (exists rf, frag_fields fo = Some (u_frag u, rf)) /\ u_host u <> []).
+  { intros uu E1 E2 E3 E4 FF. rewrite E1, E2, E3, E4.
     destruct (nonempty (uu_scheme u0)) eqn:N1; [|discriminate]. destruct (nonempty (uu_host u0)) eqn:N2; [|discriminate].
-    cbn [andb]. intros H. inversion H; subst u; clear H. cbn [u_scheme u_host u_path u_query].
-    destruct (core_valid_struct false nofrag u0 PC N1 N2) as [sch [rh [rp [qo [En [Hsch [Hne [Nsl [Nq [Hroot [Nqp [Esc [Dh [Dp [Eq _]]]]]]]]]]]]]]].
-    exists sch, rh, rp, qo, frag. split; [constructor; try assumption|].
+    cbn [andb]. intros H. inversion H; subst u; clear H. cbn [u_scheme u_host u_path u_query u_frag].
+    destruct (core_valid_struct false nofrag u0 PC N1 N2) as [sch [up [rh [rp [qo [En [Hsch [Hne [Hup [Us [Uq [Nat [Nsl [Nq [Hroot [Nqp [Esc [Dh [Dp [Eq [Ctl [PH Ha]]]]]]]]]]]]]]]]]]]]]].
+    exists sch, up, rh, rp, qo, frag. split; [constructor; try assumption|].
     - rewrite Eh at 1. rewrite En. reflexivity.
     - rewrite <- En. exact Nh.
-    - rewrite Eq. repeat split; try assumption; try (destruct qo; reflexivity). }
+    - rewrite Eq. split; [exact Esc|]. split; [exact Dh|]. split; [exact Dp|]. split; [destruct qo; reflexivity|].
+      split; [rewrite <- En; exact Ctl|]. split; [exact PH|]. split; [exact Ha|]. split; [exact FF|].
+      destruct (uu_host u0); [discriminate N2|discriminate]. }
+  pose proof (core_frag_nil _ _ _ PC) as F0.
   destruct frag as [[|f0 f]|].
-  - apply K; reflexivity.
-  - destruct (pct_decode (f0 :: f)); [|discriminate]. apply K; reflexivity.
-  - apply K; reflexivity.
+  - apply K; try reflexivity. exists []. rewrite F0. reflexivity.
+  - destruct (pct_decode (f0 :: f)) as [fd|] eqn:FD; [|discriminate]. apply K; try reflexivity.
+    cbn [uu_frag]. unfold frag_fields. rewrite FD. eexists. reflexivity.
+  - apply K; try reflexivity. exists []. rewrite F0. reflexivity.
 Qed.
 
-(* ================================================================ validity of the parts *)
-Lemma utf8_valid_app_head x y : (y = [] \/ exists c y0, y = c :: y0 /\ is_asciib c = true) ->
-  utf8_valid (x ++ y) = utf8_valid x && utf8_valid y.
+Lemma classify_u_struct s u : url_classify_u s = UValid u ->
+  exists sch up rh rp qo fo, ustruct s sch up rh rp qo fo /\
+    u_scheme u = lower sch /\ pct_decode rh = Some (u_host u) /\ pct_decode rp = Some (u_path u) /\ u_query u = opt_or_nil qo.
 Proof.
-  intros [->|[c [y0 [-> A]]]].
-  - rewrite app_nil_r. simpl. rewrite andb_true_r. reflexivity.
-  - rewrite (utf8_valid_split x c y0 A), (utf8_valid_cons c y0), (lead_ascii c A). reflexivity.
+  intros H. destruct (classify_u_full s u H) as [sch [up [rh [rp [qo [fo [S [E1 [E2 [E3 [E4 _]]]]]]]]]]].
+  exists sch, up, rh, rp, qo, fo. auto.
 Qed.
 
+(* ================================================================ alphabets *)
 Lemma scheme_char_ascii_all : forallb (fun b => implb (is_scheme_char b) (is_asciib b)) all_bytes = true.
 Proof. vm_compute. reflexivity. Qed.
 Lemma scheme_ascii sch : forallb is_scheme_char sch = true -> forallb is_asciib sch = true.
 Proof. apply forallb_impl. intros x Hx. pose proof (sweep _ scheme_char_ascii_all x) as S. cbv beta in S. rewrite Hx in S. exact S. Qed.
 
-Lemma tail_head_ascii c o : is_asciib c = true -> tail_of c o = [] \/ exists c' y0, tail_of c o = c' :: y0 /\ is_asciib c' = true.
-Proof. intros A. destruct o; [right; eexists _, _; split; [reflexivity|exact A]|left; reflexivity]. Qed.
-
-Lemma ustruct_valid s sch rh rp qo fo : ustruct s sch rh rp qo fo -> utf8_valid s = true ->
-  utf8_valid rh = true /\ utf8_valid rp = true /\ utf8_valid (opt_or_nil qo) = true.
-Proof.
-  intros S V. rewrite (us_string _ _ _ _ _ _ S) in V.
-  rewrite (utf8_valid_app_head _ (tail_of hash fo) (tail_head_ascii hash fo eq_refl)) in V.
-  apply andb_true_iff in V. destruct V as [V _].
-  rewrite (utf8_valid_app sch _ (utf8_valid_ascii _ (scheme_ascii _ (us_scheme _ _ _ _ _ _ S)))) in V.
-  change (B "://" ++ rh ++ rp ++ tail_of qmark qo) with (colon :: slash :: slash :: (rh ++ rp ++ tail_of qmark qo)) in V.
-  rewrite !utf8_valid_cons in V. change (lead_of colon) with LAscii in V. change (lead_of slash) with LAscii in V.
-  assert (Hy : rp ++ tail_of qmark qo = [] \/ exists c y0, rp ++ tail_of qmark qo = c :: y0 /\ is_asciib c = true).
-  { destruct (us_path_root _ _ _ _ _ _ S) as [->|[p ->]]; [apply (tail_head_ascii qmark qo eq_refl)|].
-    right. eexists _, _. split; [reflexivity|reflexivity]. }
-  rewrite (utf8_valid_app_head rh _ Hy) in V. apply andb_true_iff in V. destruct V as [V1 V].
-  rewrite (utf8_valid_app_head rp _ (tail_head_ascii qmark qo eq_refl)) in V. apply andb_true_iff in V. destruct V as [V2 V3].
-  repeat split; try assumption. destruct qo as [q|]; [|reflexivity]. cbn [tail_of] in V3. rewrite utf8_valid_cons in V3. exact V3.
-Qed.
-
 (* ================================================================ the fast path, component by component *)
-Lemma uc_app_sync x y : starts y -> ucanon (x ++ y) = ucanon x ++ ucanon y.
-Proof. apply (ucanon_app_sync fold_tab). Qed.
-
-Lemma uc_tail d o : is_delim d = true -> ucanon (tail_of d o) = match o with Some y => byteN d :: ucanon y | None => [] end.
+Lemma uc_tail d o : is_delim d = true -> scanon (tail_of d o) = match o with Some y => byteN d :: scanon y | None => [] end.
 Proof. intros D. destruct o as [y|]; [|reflexivity]. simpl. rewrite (uc_cons_ascii d y (delim_ascii d D)), (canon_delim_self d D). reflexivity. Qed.
 
 Lemma starts_tail d o : is_delim d = true -> starts (tail_of d o).
@@ -202,64 +296,113 @@ Definition hostpN (n : N) : bool := isnt slash n && isnt qmark n.
 Lemma colon_delim : is_delim colon = true. Proof. reflexivity. Qed.
 Lemma qmark_delim : is_delim qmark = true. Proof. reflexivity. Qed.
 Lemma hash_delim : is_delim hash = true. Proof. reflexivity. Qed.
+Lemma atsign_delim : is_delim atsign = true. Proof. reflexivity. Qed.
 
 Lemma forallb_and {A} (P Q : A -> bool) l : forallb P l = true -> forallb Q l = true -> forallb (fun x => P x && Q x) l = true.
 Proof. rewrite !forallb_forall. intros H1 H2 x Hx. rewrite (H1 x Hx), (H2 x Hx). reflexivity. Qed.
 
-Lemma fast_strings_u a b cs sa ha pa qa fa sb hb pb qb fb :
-  ustruct a sa ha pa qa fa -> ustruct b sb hb pb qb fb ->
-  ucanon (strip_for cs a) = ucanon (strip_for cs b) ->
-  (cs = true -> ucanon sa = ucanon sb) /\
-  ucanon ha = ucanon hb /\ ucanon pa = ucanon pb /\ ucanon (opt_or_nil qa) = ucanon (opt_or_nil qb).
+(* unique reading from the right: what follows the LAST occurrence of a number *)
+Lemma suffix_unique_N (P : N -> bool) x y d d' r r' :
+  forallb P r = true -> forallb P r' = true -> P d = false -> P d' = false ->
+  x ++ d :: r = y ++ d' :: r' -> x = y /\ r = r'.
+Proof.
+  intros Hr Hr' Hd Hd' E. apply (f_equal (@rev N)) in E. rewrite !rev_app_distr in E. cbn [rev] in E. rewrite <- !app_assoc in E. cbn [app] in E.
+  apply (span_unique_N P) in E.
+  - destruct E as [E1 E2]. injection E2 as _ E3. split.
+    + rewrite <- (rev_involutive x), E3, rev_involutive. reflexivity.
+    + rewrite <- (rev_involutive r), E1, rev_involutive. reflexivity.
+  - rewrite forallb_forall in *. intros z Hz. apply Hr. apply in_rev. exact Hz.
+  - rewrite forallb_forall in *. intros z Hz. apply Hr'. apply in_rev. exact Hz.
+  - exact Hd.
+  - exact Hd'.
+Qed.
+
+(* the host is what follows the last "@" of the authority, on both sides *)
+Lemma auth_host_u upa ha upb hb :
+  uprefix upa -> uprefix upb -> notin atsign ha = true -> notin atsign hb = true ->
+  scanon (upa ++ ha) = scanon (upb ++ hb) -> scanon ha = scanon hb.
+Proof.
+  intros Ua Ub Na Nb E.
+  assert (At : forall ui h, scanon ((ui ++ [atsign]) ++ h) = scanon ui ++ byteN atsign :: scanon h).
+  { intros ui h. rewrite <- app_assoc. cbn [app]. rewrite (uc_app_ascii ui atsign h eq_refl), (canon_delim_self atsign atsign_delim). reflexivity. }
+  assert (No : forall h, notin atsign h = true -> ~ In (byteN atsign) (scanon h)).
+  { intros h Nh Hin. apply (uc_in_delim h atsign atsign_delim) in Hin. unfold notin in Nh. rewrite forallb_forall in Nh.
+    specialize (Nh _ Hin). rewrite beqb_refl in Nh. discriminate. }
+  destruct Ua as [->|[uia ->]], Ub as [->|[uib ->]].
+  - exact E.
+  - exfalso. rewrite At in E. cbn [app] in E. apply (No ha Na). rewrite E. apply in_or_app. right. left. reflexivity.
+  - exfalso. rewrite At in E. cbn [app] in E. apply (No hb Nb). rewrite <- E. apply in_or_app. right. left. reflexivity.
+  - rewrite !At in E. apply (suffix_unique_N (isnt atsign)) in E.
+    + tauto.
+    + apply notin_scanon; [exact atsign_delim|exact Na].
+    + apply notin_scanon; [exact atsign_delim|exact Nb].
+    + unfold isnt. rewrite N.eqb_refl. reflexivity.
+    + unfold isnt. rewrite N.eqb_refl. reflexivity.
+Qed.
+
+Lemma fast_strings_u a b cs sa ua ha pa qa fa sb ub hb pb qb fb :
+  ustruct a sa ua ha pa qa fa -> ustruct b sb ub hb pb qb fb ->
+  scanon (strip_for cs a) = scanon (strip_for cs b) ->
+  (cs = true -> scanon sa = scanon sb) /\
+  scanon ha = scanon hb /\ scanon pa = scanon pb /\ scanon (opt_or_nil qa) = scanon (opt_or_nil qb).
 Proof.
   intros Sa Sb Hf.
-  assert (strip_fragment a = sa ++ B "://" ++ ha ++ pa ++ tail_of qmark qa) as Fa.
-  { rewrite (us_string _ _ _ _ _ _ Sa) at 1. apply strip_fragment_cut; [|apply (us_nohash _ _ _ _ _ _ Sa)].
-    pose proof (us_scheme_ne _ _ _ _ _ _ Sa). destruct sa; [congruence|discriminate]. }
-  assert (strip_fragment b = sb ++ B "://" ++ hb ++ pb ++ tail_of qmark qb) as Fb.
-  { rewrite (us_string _ _ _ _ _ _ Sb) at 1. apply strip_fragment_cut; [|apply (us_nohash _ _ _ _ _ _ Sb)].
-    pose proof (us_scheme_ne _ _ _ _ _ _ Sb). destruct sb; [congruence|discriminate]. }
-  assert (notin colon sa = true) as Ca by (apply (notin_class is_scheme_char); [reflexivity|apply (us_scheme _ _ _ _ _ _ Sa)]).
-  assert (notin colon sb = true) as Cb by (apply (notin_class is_scheme_char); [reflexivity|apply (us_scheme _ _ _ _ _ _ Sb)]).
-  assert (Sep : forall r, ucanon (B "://" ++ r) = [byteN colon; byteN slash; byteN slash] ++ ucanon r).
+  assert (strip_fragment a = sa ++ B "://" ++ ua ++ ha ++ pa ++ tail_of qmark qa) as Fa.
+  { rewrite (us_string _ _ _ _ _ _ _ Sa) at 1. apply strip_fragment_cut; [|apply (us_nohash _ _ _ _ _ _ _ Sa)].
+    pose proof (us_scheme_ne _ _ _ _ _ _ _ Sa). destruct sa; [congruence|discriminate]. }
+  assert (strip_fragment b = sb ++ B "://" ++ ub ++ hb ++ pb ++ tail_of qmark qb) as Fb.
+  { rewrite (us_string _ _ _ _ _ _ _ Sb) at 1. apply strip_fragment_cut; [|apply (us_nohash _ _ _ _ _ _ _ Sb)].
+    pose proof (us_scheme_ne _ _ _ _ _ _ _ Sb). destruct sb; [congruence|discriminate]. }
+  assert (notin colon sa = true) as Ca by (apply (notin_class is_scheme_char); [reflexivity|apply (us_scheme _ _ _ _ _ _ _ Sa)]).
+  assert (notin colon sb = true) as Cb by (apply (notin_class is_scheme_char); [reflexivity|apply (us_scheme _ _ _ _ _ _ _ Sb)]).
+  assert (Sep : forall r, scanon (B "://" ++ r) = [byteN colon; byteN slash; byteN slash] ++ scanon r).
   { intros r. change (B "://" ++ r) with (colon :: slash :: slash :: r). rewrite !uc_cons_ascii by reflexivity. reflexivity. }
-  assert (Sch : forall s r, ucanon (s ++ B "://" ++ r) = ucanon s ++ byteN colon :: [byteN slash; byteN slash] ++ ucanon r).
+  assert (Sch : forall s r, scanon (s ++ B "://" ++ r) = scanon s ++ byteN colon :: [byteN slash; byteN slash] ++ scanon r).
   { intros s r. change (B "://" ++ r) with (colon :: slash :: slash :: r). rewrite (uc_app_ascii s colon) by reflexivity.
     rewrite !uc_cons_ascii by reflexivity. reflexivity. }
   (* everything after the scheme *)
-  assert ((cs = true -> ucanon sa = ucanon sb) /\
-          ucanon (ha ++ pa ++ tail_of qmark qa) = ucanon (hb ++ pb ++ tail_of qmark qb)) as [Hs Hrest].
+  assert ((cs = true -> scanon sa = scanon sb) /\
+          scanon (ua ++ ha ++ pa ++ tail_of qmark qa) = scanon (ub ++ hb ++ pb ++ tail_of qmark qb)) as [Hs Hrest].
   { unfold strip_for in Hf. destruct cs.
     - rewrite Fa, Fb, !Sch in Hf.
       apply (span_unique_N (isnt colon)) in Hf;
-        [|apply notin_ucanon; [exact colon_delim|exact Ca]|apply notin_ucanon; [exact colon_delim|exact Cb]
+        [|apply notin_scanon; [exact colon_delim|exact Ca]|apply notin_scanon; [exact colon_delim|exact Cb]
          |simpl; unfold isnt; rewrite N.eqb_refl; reflexivity|simpl; unfold isnt; rewrite N.eqb_refl; reflexivity].
       destruct Hf as [H1 H2]. split; [intros _; exact H1|]. inversion H2. reflexivity.
     - rewrite Fa, Fb, !strip_scheme_cut in Hf by assumption. split; [discriminate|].
       rewrite !Sep in Hf. apply app_inv_head in Hf. exact Hf. }
   split; [exact Hs|].
-  (* host *)
+  (* authority *)
   assert (StA : starts (pa ++ tail_of qmark qa)).
-  { destruct (us_path_root _ _ _ _ _ _ Sa) as [->|[p ->]]; [apply starts_tail; exact qmark_delim|apply starts_ascii; reflexivity]. }
+  { destruct (us_path_root _ _ _ _ _ _ _ Sa) as [->|[p ->]]; [apply starts_tail; exact qmark_delim|apply starts_ascii; reflexivity]. }
   assert (StB : starts (pb ++ tail_of qmark qb)).
-  { destruct (us_path_root _ _ _ _ _ _ Sb) as [->|[p ->]]; [apply starts_tail; exact qmark_delim|apply starts_ascii; reflexivity]. }
-  rewrite (uc_app_sync ha _ StA), (uc_app_sync hb _ StB) in Hrest.
+  { destruct (us_path_root _ _ _ _ _ _ _ Sb) as [->|[p ->]]; [apply starts_tail; exact qmark_delim|apply starts_ascii; reflexivity]. }
+  rewrite (app_assoc ua ha), (app_assoc ub hb) in Hrest.
+  rewrite (uc_app_sync (ua ++ ha) _ StA), (uc_app_sync (ub ++ hb) _ StB) in Hrest.
   rewrite (uc_app_sync pa _ (starts_tail qmark qa qmark_delim)), (uc_app_sync pb _ (starts_tail qmark qb qmark_delim)) in Hrest.
   rewrite !(uc_tail qmark) in Hrest by exact qmark_delim.
   assert (StopH : forall p q, (p = [] \/ exists p0, p = slash :: p0) ->
-            stopsN hostpN (ucanon p ++ match q with Some y => byteN qmark :: ucanon y | None => [] end)).
+            stopsN hostpN (scanon p ++ match q with Some y => byteN qmark :: scanon y | None => [] end)).
   { intros p q [->|[p0 ->]].
     - destruct q; simpl; [reflexivity|exact I].
     - rewrite (uc_cons_ascii slash p0 eq_refl). simpl. reflexivity. }
+  assert (AuA : forallb hostpN (scanon (ua ++ ha)) = true).
+  { apply forallb_and; apply notin_scanon; try reflexivity; rewrite notin_app.
+    - rewrite (us_user_noslash _ _ _ _ _ _ _ Sa), (us_host_noslash _ _ _ _ _ _ _ Sa). reflexivity.
+    - rewrite (us_user_noq _ _ _ _ _ _ _ Sa), (us_host_noq _ _ _ _ _ _ _ Sa). reflexivity. }
+  assert (AuB : forallb hostpN (scanon (ub ++ hb)) = true).
+  { apply forallb_and; apply notin_scanon; try reflexivity; rewrite notin_app.
+    - rewrite (us_user_noslash _ _ _ _ _ _ _ Sb), (us_host_noslash _ _ _ _ _ _ _ Sb). reflexivity.
+    - rewrite (us_user_noq _ _ _ _ _ _ _ Sb), (us_host_noq _ _ _ _ _ _ _ Sb). reflexivity. }
   apply (span_unique_N hostpN) in Hrest;
-    [|apply forallb_and; apply notin_ucanon; try reflexivity; [apply (us_host_noslash _ _ _ _ _ _ Sa)|apply (us_host_noq _ _ _ _ _ _ Sa)]
-     |apply forallb_and; apply notin_ucanon; try reflexivity; [apply (us_host_noslash _ _ _ _ _ _ Sb)|apply (us_host_noq _ _ _ _ _ _ Sb)]
-     |apply StopH; apply (us_path_root _ _ _ _ _ _ Sa)|apply StopH; apply (us_path_root _ _ _ _ _ _ Sb)].
-  destruct Hrest as [Hh Hrest]. split; [exact Hh|].
+    [|exact AuA|exact AuB|apply StopH; apply (us_path_root _ _ _ _ _ _ _ Sa)|apply StopH; apply (us_path_root _ _ _ _ _ _ _ Sb)].
+  destruct Hrest as [Hau Hrest].
+  split; [exact (auth_host_u ua ha ub hb (us_user _ _ _ _ _ _ _ Sa) (us_user _ _ _ _ _ _ _ Sb)
+                   (us_host_noat _ _ _ _ _ _ _ Sa) (us_host_noat _ _ _ _ _ _ _ Sb) Hau)|].
   (* path *)
   apply (span_unique_N (isnt qmark)) in Hrest;
-    [|apply notin_ucanon; [exact qmark_delim|apply (us_path_noq _ _ _ _ _ _ Sa)]
-     |apply notin_ucanon; [exact qmark_delim|apply (us_path_noq _ _ _ _ _ _ Sb)]
+    [|apply notin_scanon; [exact qmark_delim|apply (us_path_noq _ _ _ _ _ _ _ Sa)]
+     |apply notin_scanon; [exact qmark_delim|apply (us_path_noq _ _ _ _ _ _ _ Sb)]
      |destruct qa; simpl; [unfold isnt; rewrite N.eqb_refl; reflexivity|exact I]
      |destruct qb; simpl; [unfold isnt; rewrite N.eqb_refl; reflexivity|exact I]].
   destruct Hrest as [Hp Hq]. split; [exact Hp|].
@@ -275,27 +418,26 @@ Proof.
   specialize (H y Hy). pose proof (sweep _ lower_byte_ascii_all y) as S. cbv beta in S. rewrite H in S. exact S.
 Qed.
 
+(* ALL byte strings: no condition but that both parse to a URL with scheme and host *)
 Theorem fast_u a b cs u w :
-  utf8_valid a = true -> utf8_valid b = true ->
   url_classify_u a = UValid u -> url_classify_u b = UValid w ->
-  ufold_eqb (strip_for cs a) (strip_for cs b) = true ->
-  (cs = true -> ucanon (u_scheme u) = ucanon (u_scheme w)) /\
-  ucanon (u_host u) = ucanon (u_host w) /\
-  ucanon (clean_url_path path_clean (u_path u)) = ucanon (clean_url_path path_clean (u_path w)) /\
-  ucanon (u_query u) = ucanon (u_query w).
+  sfold_eqb (strip_for cs a) (strip_for cs b) = true ->
+  (cs = true -> scanon (u_scheme u) = scanon (u_scheme w)) /\
+  scanon (u_host u) = scanon (u_host w) /\
+  scanon (clean_url_path path_clean (u_path u)) = scanon (clean_url_path path_clean (u_path w)) /\
+  scanon (u_query u) = scanon (u_query w).
 Proof.
-  intros Va Vb Ha Hb Hf. apply ufold_eqb_eq in Hf.
-  destruct (classify_u_struct a u Ha) as [sa [ha [pa [qa [fa [Sa [Sca [Dha [Dpa Qa]]]]]]]]].
-  destruct (classify_u_struct b w Hb) as [sb [hb [pb [qb [fb [Sb [Scb [Dhb [Dpb Qb]]]]]]]]].
-  destruct (ustruct_valid _ _ _ _ _ _ Sa Va) as [Vha [Vpa _]]. destruct (ustruct_valid _ _ _ _ _ _ Sb Vb) as [Vhb [Vpb _]].
-  destruct (fast_strings_u a b cs _ _ _ _ _ _ _ _ _ _ Sa Sb Hf) as [Hs [Hh [Hp Hq]]].
+  intros Ha Hb Hf. apply sfold_eqb_eq in Hf.
+  destruct (classify_u_struct a u Ha) as [sa [ua [ha [pa [qa [fa [Sa [Sca [Dha [Dpa Qa]]]]]]]]]].
+  destruct (classify_u_struct b w Hb) as [sb [ub [hb [pb [qb [fb [Sb [Scb [Dhb [Dpb Qb]]]]]]]]]].
+  destruct (fast_strings_u a b cs _ _ _ _ _ _ _ _ _ _ _ _ Sa Sb Hf) as [Hs [Hh [Hp Hq]]].
   split; [|split; [|split]].
   - intros Hcs. rewrite Sca, Scb.
-    pose proof (scheme_ascii _ (us_scheme _ _ _ _ _ _ Sa)) as Aa. pose proof (scheme_ascii _ (us_scheme _ _ _ _ _ _ Sb)) as Ab.
-    apply (ucanon_ascii_lower _ _ (lower_ascii _ Aa) (lower_ascii _ Ab)). rewrite !lower_idem.
-    apply (ucanon_ascii_lower _ _ Aa Ab). exact (Hs Hcs).
-  - exact (pct_decode_ucanon ha hb _ _ Vha Vhb Hh Dha Dhb).
-  - apply clean_url_path_feq. exact (pct_decode_ucanon pa pb _ _ Vpa Vpb Hp Dpa Dpb).
+    pose proof (scheme_ascii _ (us_scheme _ _ _ _ _ _ _ Sa)) as Aa. pose proof (scheme_ascii _ (us_scheme _ _ _ _ _ _ _ Sb)) as Ab.
+    apply (scanon_ascii_lower _ _ (lower_ascii _ Aa) (lower_ascii _ Ab)). rewrite !lower_idem.
+    apply (scanon_ascii_lower _ _ Aa Ab). exact (Hs Hcs).
+  - exact (pct_decode_scanon ha hb _ _ Hh Dha Dhb).
+  - apply clean_url_path_feq. exact (pct_decode_scanon pa pb _ _ Hp Dpa Dpb).
   - rewrite Qa, Qb. exact Hq.
 Qed.
 
@@ -332,46 +474,74 @@ Proof.
   - simpl in Hn. rewrite andb_true_iff, negb_true_iff in Hn. destruct Hn as [Ha Hn]. rewrite Ha, (IH Hn). reflexivity.
 Qed.
 
-Definition frag_fields (fo : option bytes) : option (bytes * bytes) :=
-  match fo with
-  | None | Some [] => Some ([], [])
-  | Some f => match pct_decode f with
-              | Some d => Some (d, if bytes_eqb f (frag_escape d) then [] else f)
-              | None => None
-              end
-  end.
+(* with any authority url.parseAuthority accepts *)
+Lemma parse_core_auth via sch au rp qo user h d :
+  forallb is_scheme_char sch = true -> match sch with c0 :: _ => is_alpha c0 = true | [] => False end ->
+  existsb is_ctl (sch ++ B "://" ++ au ++ rp ++ tail_of qmark qo) = false ->
+  notin slash au = true -> notin qmark (au ++ rp) = true -> parse_authority au = Some (user, h) ->
+  (rp = [] \/ exists p, rp = slash :: p) -> pct_decode rp = Some d ->
+  url_parse_core via (sch ++ B "://" ++ au ++ rp ++ tail_of qmark qo) =
+  UUrl {| uu_scheme := lower sch; uu_opaque := []; uu_user := user; uu_host := h; uu_path := d;
+          uu_rawpath := if bytes_eqb rp (path_escape d) then [] else rp;
+          uu_query := qo; uu_frag := []; uu_rawfrag := []; uu_omit := false |}.
+Proof.
+  intros Hs Ha Hctl Hsl Hq PA Hroot Dp.
+  unfold url_parse_core. rewrite Hctl.
+  assert (nonempty (sch ++ B "://" ++ au ++ rp ++ tail_of qmark qo) = true) as ->.
+  { destruct sch; [destruct Ha|reflexivity]. }
+  rewrite andb_false_r.
+  assert (bytes_eqb (sch ++ B "://" ++ au ++ rp ++ tail_of qmark qo) [star] = false) as ->.
+  { apply bytes_eqb_neq. destruct sch as [|c0 [|c1 t]]; [destruct Ha|discriminate|discriminate]. }
+  change (sch ++ B "://" ++ au ++ rp ++ tail_of qmark qo) with (sch ++ colon :: (B "//" ++ au ++ rp ++ tail_of qmark qo)).
+  rewrite (get_scheme_app sch _ Hs Ha).
+  replace (B "//" ++ au ++ rp ++ tail_of qmark qo) with ((B "//" ++ au ++ rp) ++ tail_of qmark qo) by (rewrite <- !app_assoc; reflexivity).
+  rewrite (cut_byte_app_tail qmark (B "//" ++ au ++ rp) qo) by exact Hq.
+  rewrite lower_nonempty. assert (nonempty sch = true) as -> by (destruct sch; [destruct Ha|reflexivity]).
+  change (is_prefix [slash] (B "//" ++ au ++ rp)) with true. change (is_prefix (B "//") (B "//" ++ au ++ rp)) with true.
+  cbn [negb andb orb]. change (skipn 2 (B "//" ++ au ++ rp)) with (au ++ rp).
+  assert (exists pr, rp = tail_of slash pr) as [pr Epr].
+  { destruct Hroot as [->|[p ->]]; [exists None|exists (Some p)]; reflexivity. }
+  subst rp. rewrite (cut_byte_app_tail slash au pr Hsl). rewrite PA.
+  unfold set_path. change (match pr with Some p => slash :: p | None => [] end) with (tail_of slash pr).
+  cbn [uu_scheme uu_opaque uu_user uu_host uu_query uu_frag uu_rawfrag uu_omit].
+  rewrite Dp. reflexivity.
+Qed.
 
+Lemma parse_u_auth sch au rp qo fo user h d :
+  forallb is_scheme_char sch = true -> match sch with c0 :: _ => is_alpha c0 = true | [] => False end ->
+  existsb is_ctl (sch ++ B "://" ++ au ++ rp ++ tail_of qmark qo) = false ->
+  notin hash (sch ++ B "://" ++ au ++ rp ++ tail_of qmark qo) = true ->
+  notin slash au = true -> notin qmark (au ++ rp) = true -> parse_authority au = Some (user, h) ->
+  (rp = [] \/ exists p, rp = slash :: p) -> pct_decode rp = Some d ->
+  url_parse_u ((sch ++ B "://" ++ au ++ rp ++ tail_of qmark qo) ++ tail_of hash fo) =
+  match frag_fields fo with
+  | Some (fd, rf) =>
+      UUrl {| uu_scheme := lower sch; uu_opaque := []; uu_user := user; uu_host := h; uu_path := d;
+              uu_rawpath := if bytes_eqb rp (path_escape d) then [] else rp;
+              uu_query := qo; uu_frag := fd; uu_rawfrag := rf; uu_omit := false |}
+  | None => UErr
+  end.
+Proof.
+  intros Hs Ha Hctl Hnh Hsl Hq PA Hroot Dp.
+  unfold url_parse_u. rewrite (cut_byte_app_tail hash _ fo Hnh).
+  rewrite (parse_core_auth false sch au rp qo user h d Hs Ha Hctl Hsl Hq PA Hroot Dp).
+  unfold frag_fields. destruct fo as [[|f0 f]|]; try reflexivity.
+  destruct (pct_decode (f0 :: f)); reflexivity.
+Qed.
+
+(* the plain case: no userinfo, no IP literal *)
 Lemma parse_core_struct via sch rh rp qo h d :
   forallb is_scheme_char sch = true -> match sch with c0 :: _ => is_alpha c0 = true | [] => False end ->
   existsb is_ctl (sch ++ B "://" ++ rh ++ rp ++ tail_of qmark qo) = false ->
   notin slash rh = true -> notin qmark (rh ++ rp) = true -> rawhost_ok rh = true -> pct_decode rh = Some h ->
   (rp = [] \/ exists p, rp = slash :: p) -> pct_decode rp = Some d ->
   url_parse_core via (sch ++ B "://" ++ rh ++ rp ++ tail_of qmark qo) =
-  UUrl {| uu_scheme := lower sch; uu_opaque := []; uu_host := h; uu_path := d;
+  UUrl {| uu_scheme := lower sch; uu_opaque := []; uu_user := None; uu_host := h; uu_path := d;
           uu_rawpath := if bytes_eqb rp (path_escape d) then [] else rp;
           uu_query := qo; uu_frag := []; uu_rawfrag := []; uu_omit := false |}.
 Proof.
-  intros Hs Ha Hctl Hsl Hq Hok Dh Hroot Dp.
-  unfold url_parse_core. rewrite Hctl.
-  assert (nonempty (sch ++ B "://" ++ rh ++ rp ++ tail_of qmark qo) = true) as ->.
-  { destruct sch; [destruct Ha|reflexivity]. }
-  rewrite andb_false_r.
-  assert (bytes_eqb (sch ++ B "://" ++ rh ++ rp ++ tail_of qmark qo) [star] = false) as ->.
-  { apply bytes_eqb_neq. destruct sch as [|c0 [|c1 t]]; [destruct Ha|discriminate|discriminate]. }
-  change (sch ++ B "://" ++ rh ++ rp ++ tail_of qmark qo) with (sch ++ colon :: (B "//" ++ rh ++ rp ++ tail_of qmark qo)).
-  rewrite (get_scheme_app sch _ Hs Ha).
-  replace (B "//" ++ rh ++ rp ++ tail_of qmark qo) with ((B "//" ++ rh ++ rp) ++ tail_of qmark qo) by (rewrite <- !app_assoc; reflexivity).
-  rewrite (cut_byte_app_tail qmark (B "//" ++ rh ++ rp) qo) by exact Hq.
-  rewrite lower_nonempty. assert (nonempty sch = true) as -> by (destruct sch; [destruct Ha|reflexivity]).
-  change (is_prefix [slash] (B "//" ++ rh ++ rp)) with true. change (is_prefix (B "//") (B "//" ++ rh ++ rp)) with true.
-  cbn [negb andb orb]. change (skipn 2 (B "//" ++ rh ++ rp)) with (rh ++ rp).
-  assert (exists pr, rp = tail_of slash pr) as [pr Epr].
-  { destruct Hroot as [->|[p ->]]; [exists None|exists (Some p)]; reflexivity. }
-  subst rp. rewrite (cut_byte_app_tail slash rh pr Hsl).
-  unfold rawhost_ok in Hok. rewrite !andb_true_iff, !negb_true_iff in Hok. destruct Hok as [[[H1 H2] H3] H4].
-  rewrite H1, H2. unfold parse_host. rewrite H3, H4, Dh. cbn [andb].
-  unfold set_path. change (match pr with Some p => slash :: p | None => [] end) with (tail_of slash pr).
-  rewrite Dp. reflexivity.
+  intros Hs Ha Hctl Hsl Hq Hok Dh Hroot Dp. destruct (rawhost_ok_parse rh h Hok Dh) as [Nat PH].
+  apply parse_core_auth; try assumption. apply parse_authority_plain; assumption.
 Qed.
 
 Lemma parse_u_struct sch rh rp qo fo h d :
@@ -383,15 +553,97 @@ Lemma parse_u_struct sch rh rp qo fo h d :
   url_parse_u ((sch ++ B "://" ++ rh ++ rp ++ tail_of qmark qo) ++ tail_of hash fo) =
   match frag_fields fo with
   | Some (fd, rf) =>
-      UUrl {| uu_scheme := lower sch; uu_opaque := []; uu_host := h; uu_path := d;
+      UUrl {| uu_scheme := lower sch; uu_opaque := []; uu_user := None; uu_host := h; uu_path := d;
               uu_rawpath := if bytes_eqb rp (path_escape d) then [] else rp;
               uu_query := qo; uu_frag := fd; uu_rawfrag := rf; uu_omit := false |}
   | None => UErr
   end.
 Proof.
-  intros Hs Ha Hctl Hnh Hsl Hq Hok Dh Hroot Dp.
-  unfold url_parse_u. rewrite (cut_byte_app_tail hash _ fo Hnh).
-  rewrite (parse_core_struct false sch rh rp qo h d Hs Ha Hctl Hsl Hq Hok Dh Hroot Dp).
-  unfold frag_fields. destruct fo as [[|f0 f]|]; try reflexivity.
-  destruct (pct_decode (f0 :: f)); reflexivity.
+  intros Hs Ha Hctl Hnh Hsl Hq Hok Dh Hroot Dp. destruct (rawhost_ok_parse rh h Hok Dh) as [Nat PH].
+  apply parse_u_auth; try assumption. apply parse_authority_plain; assumption.
+Qed.
+
+(* ================================================================ userinfo is not part of what IRI.Equals compares *)
+Lemma userinfo_char_facts_all : forallb (fun b => implb (userinfo_char b)
+   (negb (Byte.eqb b slash) && negb (Byte.eqb b qmark) && negb (Byte.eqb b hash) && negb (is_ctl b))) all_bytes = true.
+Proof. vm_compute. reflexivity. Qed.
+
+Lemma userinfo_ok_chars ui : userinfo_ok ui = true ->
+  notin slash ui = true /\ notin qmark ui = true /\ notin hash ui = true /\ existsb is_ctl ui = false.
+Proof.
+  unfold userinfo_ok, parse_userinfo. destruct (forallb userinfo_char ui) eqn:F; [|discriminate]. intros _.
+  induction ui as [|x r IH]; [repeat split|]. cbn [forallb] in F. apply andb_true_iff in F. destruct F as [Fx Fr].
+  destruct (IH Fr) as [I1 [I2 [I3 I4]]]. pose proof (sweep _ userinfo_char_facts_all x) as S. cbv beta in S. rewrite Fx in S.
+  cbn [implb] in S. rewrite !andb_true_iff, !negb_true_iff in S. destruct S as [[[S1 S2] S3] S4].
+  simpl. rewrite S1, S2, S3, S4, I1, I2, I3, I4. repeat split.
+Qed.
+
+Lemma classify_u_unfold s : s <> [] -> url_classify_u s =
+  match url_parse_u s with
+  | UUrl u =>
+      if nonempty (uu_scheme u) && nonempty (uu_host u)
+      then UValid {| u_scheme := uu_scheme u; u_host := uu_host u; u_path := uu_path u;
+                     u_query := match uu_query u with Some q => q | None => [] end; u_frag := uu_frag u |}
+      else UFallback
+  | UErr => UFallback
+  | UOut => UUnmodelled
+  end.
+Proof. destruct s; [congruence|reflexivity]. Qed.
+
+Lemma scheme_app_nonempty sch x y : match sch with c0 :: _ => is_alpha c0 = true | [] => False end -> (sch ++ x) ++ y <> [].
+Proof. destruct sch; [intros []|discriminate]. Qed.
+
+Lemma existsb_app_false {A} (P : A -> bool) x y : existsb P (x ++ y) = false <-> existsb P x = false /\ existsb P y = false.
+Proof. rewrite existsb_app, orb_false_iff. tauto. Qed.
+
+(* the same IRI without its userinfo parses to the same scheme, host, path, query and fragment: URL.User is the only
+   difference, and IRI.Equals does not look at it *)
+Theorem classify_u_drop_userinfo s u : url_classify_u s = UValid u ->
+  exists sch up rest fo, s = (sch ++ B "://" ++ up ++ rest) ++ tail_of hash fo /\ uprefix up /\
+    url_classify_u ((sch ++ B "://" ++ rest) ++ tail_of hash fo) = UValid u.
+Proof.
+  intros H. destruct (classify_u_full s u H) as [sch [up [rh [rp [qo [fo [S [E1 [E2 [E3 [E4 [Ctl [PH [Ha [[rf FF] Hne]]]]]]]]]]]]]]].
+  exists sch, up, (rh ++ rp ++ tail_of qmark qo), fo. split; [exact (us_string _ _ _ _ _ _ _ S)|]. split; [exact (us_user _ _ _ _ _ _ _ S)|].
+  pose proof (us_nohash _ _ _ _ _ _ _ S) as Nh.
+  assert (Nh' : notin hash (sch ++ B "://" ++ rh ++ rp ++ tail_of qmark qo) = true).
+  { rewrite !notin_app in *. rewrite !andb_true_iff in *. tauto. }
+  assert (Ctl' : existsb is_ctl (sch ++ B "://" ++ rh ++ rp ++ tail_of qmark qo) = false).
+  { rewrite !existsb_app_false in *. tauto. }
+  assert (Nq : notin qmark (rh ++ rp) = true).
+  { rewrite notin_app, (us_host_noq _ _ _ _ _ _ _ S), (us_path_noq _ _ _ _ _ _ _ S). reflexivity. }
+  pose proof (parse_u_auth sch rh rp qo fo None (u_host u) (u_path u) (us_scheme _ _ _ _ _ _ _ S) Ha Ctl' Nh'
+                (us_host_noslash _ _ _ _ _ _ _ S) Nq (parse_authority_plain rh _ (us_host_noat _ _ _ _ _ _ _ S) PH)
+                (us_path_root _ _ _ _ _ _ _ S) E3) as PU.
+  rewrite (classify_u_unfold _ (scheme_app_nonempty sch _ _ Ha)).
+  rewrite PU, FF. cbn [uu_scheme uu_host uu_path uu_query uu_frag]. rewrite lower_nonempty.
+  assert (nonempty sch = true) as -> by (destruct sch; [destruct Ha|reflexivity]).
+  assert (nonempty (u_host u) = true) as -> by (destruct (u_host u); [congruence|reflexivity]). cbn [andb].
+  destruct u as [us uh upth uq uf]. cbn [u_scheme u_host u_path u_query u_frag] in *. rewrite <- E1, E4.
+  destruct qo; reflexivity.
+Qed.
+
+(* and any userinfo url.validUserinfo accepts can be put in front of a host *)
+Theorem classify_u_add_userinfo sch ui rh rp qo fo h d :
+  forallb is_scheme_char sch = true -> match sch with c0 :: _ => is_alpha c0 = true | [] => False end ->
+  existsb is_ctl (sch ++ B "://" ++ rh ++ rp ++ tail_of qmark qo) = false ->
+  notin hash (sch ++ B "://" ++ rh ++ rp ++ tail_of qmark qo) = true ->
+  notin slash rh = true -> notin qmark (rh ++ rp) = true -> notin atsign rh = true -> parse_host rh = Some h ->
+  (rp = [] \/ exists p, rp = slash :: p) -> pct_decode rp = Some d -> userinfo_ok ui = true ->
+  url_classify_u ((sch ++ B "://" ++ (ui ++ atsign :: rh) ++ rp ++ tail_of qmark qo) ++ tail_of hash fo) =
+  url_classify_u ((sch ++ B "://" ++ rh ++ rp ++ tail_of qmark qo) ++ tail_of hash fo).
+Proof.
+  intros Hs Ha Ctl Nh Nsl Nq Nat PH Hroot Dp U.
+  destruct (userinfo_ok_chars ui U) as [U1 [U2 [U3 U4]]].
+  destruct (parse_authority_user ui rh h U Nat PH) as [user PA].
+  assert (Ctl' : existsb is_ctl (sch ++ B "://" ++ (ui ++ atsign :: rh) ++ rp ++ tail_of qmark qo) = false).
+  { rewrite !existsb_app_false in *. cbn [existsb]. rewrite orb_false_iff. change (is_ctl atsign) with false. tauto. }
+  assert (Nh' : notin hash (sch ++ B "://" ++ (ui ++ atsign :: rh) ++ rp ++ tail_of qmark qo) = true).
+  { rewrite !notin_app in *. cbn [notin forallb]. fold (notin hash rh). rewrite !andb_true_iff in *. change (Byte.eqb atsign hash) with false. tauto. }
+  assert (Nsl' : notin slash (ui ++ atsign :: rh) = true).
+  { rewrite notin_app. cbn [notin forallb]. fold (notin slash rh). rewrite U1, Nsl. reflexivity. }
+  assert (Nq' : notin qmark ((ui ++ atsign :: rh) ++ rp) = true).
+  { rewrite !notin_app in *. cbn [notin forallb]. fold (notin qmark rh). rewrite !andb_true_iff in *. change (Byte.eqb atsign qmark) with false. tauto. }
+  pose proof (parse_u_auth sch (ui ++ atsign :: rh) rp qo fo (Some user) h d Hs Ha Ctl' Nh' Nsl' Nq' PA Hroot Dp) as P1.
+  pose proof (parse_u_auth sch rh rp qo fo None h d Hs Ha Ctl Nh Nsl Nq (parse_authority_plain rh h Nat PH) Hroot Dp) as P2.
+  rewrite !(classify_u_unfold _ (scheme_app_nonempty sch _ _ Ha)), P1, P2. destruct (frag_fields fo) as [[fd rf]|]; reflexivity.
 Qed.
